@@ -1,6 +1,6 @@
 """C06 - integer arithmetic: representation independence of the NInt layer (static clauses)."""
 import re
-from .core import (param_sources, CheckError, find_match, arm_region, pat_str, strip_ref, origins, only_when,
+from .core import (family_calls, param_sources, CheckError, find_match, arm_region, pat_str, strip_ref, origins, only_when,
                    pat_paths, Registry, pat_subsumes, op_local)
 
 META = {
@@ -533,6 +533,15 @@ def run(F, rep, tier):
             rep.ok('R6.7', fn, 'shifts the BigInt')
         else:
             rep.viol('R6.7', fn + '|machine-shift', 'shift has a machine-word path (%s %s): bits shifted out of an i64 are lost silently' % (other, ['bin ' + s[2][1] for s in shifts]), b.loc(0))
+    # gcd / lcm at the NNum level delegate to the NInt implementations (sign normalisation, BigInt arithmetic live there)
+    for nm_ in ('gcd', 'lcm'):
+        fn_ = 'nnum::NNum::' + nm_
+        if not F.has_fn(fn_):
+            continue
+        if any(c.target == 'nint::NInt::' + nm_ for c in family_calls(F, fn_)):
+            rep.ok('R6.7', 'NNum::%s' % nm_, 'delegates to NInt::%s' % nm_)
+        else:
+            rep.viol('R6.7', '%s|reimplemented' % fn_, 'NNum::%s no longer delegates to NInt::%s: a second implementation of the integer %s (sign of the result, zero operands, big operands) that can disagree with the first' % (nm_, nm_, nm_), F.body(fn_).loc(0))
     # ---------------- R6.9
     rep.rule('R6.9', 'the big fallback of every binary operator impl on NInt keeps the operand roles: the left operand of the BigInt-level '
              'operation comes from self, the right one from the other parameter (parameter-source dataflow, field-sensitive through '
